@@ -8,6 +8,8 @@ The code as it is now, i.e. after the three `fix:` commits of C10
   [D2] Poll._updateRegistration forgets the number(s) a *closed* descriptor is still mapped under
   [D3] Poll._process treats a mapped descriptor whose fileno() is no longer the reported number
        (closed, number possibly reused) like POLLNVAL: _disconnect + discard
+and the `fix:` commit of C12
+  [D4] EPoll._updateRegistration deletes `_map[fileno]` when it drops a descriptor (as Poll does)
 
   class BasePoller:
       _read = []; _write = []; _targets = {}
@@ -46,7 +48,7 @@ The code as it is now, i.e. after the three `fix:` commits of C10
           if mask: self._poller.register(fd, mask)   # ValueError for a closed socket, propagates
                    self._map[fileno] = fd
           else:    super().discard(fd)
-                   suppress(KeyError): del self._map[fileno]          # EPoll: _map entry stays (C12 #13)
+                   suppress(KeyError): del self._map[fileno]          # EPoll too since [D4] (C12 fix)
       addReader/addWriter/removeReader/removeWriter/discard = super().<same>() ; _updateRegistration(fd)
       def _process(self, fileno, event):
           if fileno not in self._map: return
@@ -215,7 +217,7 @@ def updateRegistration (s : State) (o : Obj) : State × Bool :=
         ({ s1 with kin := upd s1.kin f (decide (o ∈ s.read)), kout := upd s1.kout f (decide (o ∈ s.write)),
                    map := upd s1.map f (some o) }, false)
       else
-        (baseDiscard s1 o, false)          -- `_map[f]` is kept (stale entry, see C12)
+        ({ (baseDiscard s1 o) with map := upd s1.map f none }, false)   -- [D4] `_map[f]` is forgotten (C12 fix)
     | none =>
       -- unregister(-1): ValueError whose args[0] is a str, so the EBADF branch is not taken
       if o ∈ s.read ∨ o ∈ s.write then (s, true) else (baseDiscard s o, false)
